@@ -316,3 +316,17 @@ theorem isCorner_inside : ∀ (oshape : List Nat) (p : List Int), IsCorner oshap
       refine ⟨?_, ih ks hc.2 (fun n hn => hpos n (by simp [hn]))⟩
       rcases hc.1 with rfl | ⟨h2, rfl⟩ <;> omega
 end Mahotas.C18
+
+namespace Mahotas.C18
+/-- on an axis with a single sample every knot folds to that sample -/
+theorem edgeFold_one (x : Int) : edgeFold 1 x = 0 := by
+  unfold edgeFold fixOffset
+  by_cases a : x < 0
+  · simp [a]
+  · by_cases b : x ≥ ((1 : Nat) : Int)
+    · have b' : (1 : Int) ≤ x := by simpa using b
+      simp [a, b']
+    · have : x = 0 := by omega
+      subst this
+      simp
+end Mahotas.C18
